@@ -22,6 +22,8 @@ use vcore::util;
 pub enum Which {
     C12,
     C13,
+    /// the filesystem half of C14: both observer sets on the all-games × all-languages pass
+    C14,
 }
 
 #[derive(Clone, PartialEq, Eq, Hash, Debug, PartialOrd, Ord)]
@@ -741,6 +743,10 @@ impl System for Sys {
             match self.which {
                 Which::C12 => self.observe_c12(&w, &s.top, &mut out),
                 Which::C13 => self.observe_c13(&w, &s.top, &mut out),
+                Which::C14 => {
+                    self.observe_c12(&w, &s.top, &mut out);
+                    self.observe_c13(&w, &s.top, &mut out);
+                }
             }
             // observers must not change anything
             let snaps: Vec<Tree> = w.roots.iter().map(|r| snapshot(r)).collect();
@@ -793,7 +799,10 @@ fn lower_choices(probe: &Config) -> Vec<(&'static str, Tree)> {
     let mut v: Vec<(&'static str, Tree)> = Vec::new();
     v.push(("empty", Tree::new()));
     v.push(("a", [("a".to_string(), file(b"lowA"))].into_iter().collect()));
-    v.push(("a+d/a", [("a".to_string(), file(b"lowA")), ("d".to_string(), Node::Dir), ("d/a".to_string(), file(b"lowDA")), ("d/x.bin".to_string(), file(b"x")), ("d/y.txt".to_string(), file(b"y"))].into_iter().collect()));
+    v.push(("a+d/a", [("a".to_string(), file(b"lowA")), ("d".to_string(), Node::Dir), ("d/a".to_string(), file(b"lowDA")), ("d/x.bin".to_string(), file(b"x")), ("d/y.txt".to_string(), file(b"y")),
+        // siblings whose names extend a directory name with characters that sort below '/':
+        // string order and path-component order differ on them
+        ("d-old".to_string(), file(b"o")), ("d.bin".to_string(), file(b"b")), ("d e".to_string(), Node::Dir), ("d e/f".to_string(), file(b"f"))].into_iter().collect()));
     v.push(("d/", [("d".to_string(), Node::Dir)].into_iter().collect()));
     v.push((
         "d/e/c+d/b.SFX",
@@ -868,12 +877,27 @@ pub fn configs(tier: Tier) -> Vec<Config> {
     out
 }
 
+/// configurations for the filesystem half of C14: every supported game × language
+pub fn configs_c14(tier: Tier) -> Vec<Config> {
+    configs(tier).into_iter().filter(|c| c.name.contains("localized d/a]") && c.lowers.len() == 3 && c.name.contains("a+d/a")).map(|mut c| {
+        c.depth = match tier {
+            Tier::Quick => 1,
+            Tier::Thorough => 2,
+        };
+        c
+    }).collect()
+}
+
 pub fn explore(ctx: &Ctx, which: Which) -> Outcome {
-    let base = ctx.scratch(if which == Which::C12 { "c12" } else { "c13" });
+    let base = ctx.scratch(match which {
+        Which::C12 => "c12",
+        Which::C13 => "c13",
+        Which::C14 => "c14",
+    });
     let mut o = Outcome::default();
     let mut cov = Coverage::default();
     let mut per_cfg = Vec::new();
-    let cfgs = configs(ctx.tier);
+    let cfgs = if which == Which::C14 { configs_c14(ctx.tier) } else { configs(ctx.tier) };
     let mut wit_total: BTreeMap<String, u64> = BTreeMap::new();
     for (ci, cfg) in cfgs.into_iter().enumerate() {
         let depth = cfg.depth;
@@ -915,6 +939,7 @@ pub fn explore(ctx: &Ctx, which: Which) -> Outcome {
     cov.exhaustive = true;
     cov.rule = match which {
         Which::C12 => "explicit-state BFS over real directories: state = logical content of the top layer, lower layers = configuration (1..=4 layers incl. a typed-files layer); transitions = write (4 paths incl. the game's compressed suffix, 2..4 payloads, localized/unlocalized), create_dir, write_archive, write_text_archive; every transition materialises all layers in a fresh scratch directory, applies the call on a real LayeredFilesystem, snapshots every layer with an independent walker and compares with the model (lower layers byte-identical, top layer = model, stored compressed files valid per the reference decoder); per distinct state: read / exists / file_exists / directory_exists / resolve for 10 paths × localized/unlocalized and the typed helpers (archive in the game's endianness, text archive in the game's format, pack, arc) against the top-down model".into(),
+        Which::C14 => "filesystem half of C14: for every supported game × language a real LayeredFilesystem over three layers (one of them holding a file at the localized location) is driven through every single call of the C12 alphabet; localized writes must land at root/localize(p) and localized read / exists / file_exists / directory_exists / resolve / list / subdirectories must address that same location (model: ref_loc + layer model)".into(),
         Which::C13 => "same state space as C12; per distinct state: list(dir, glob, localized) for 7 directories × 5 globs × 2 and subdirectories() compared with the sorted de-duplicated union computed from the layers by an independent walker/matcher, every listed path checked with exists(), localized listing compared with the unlocalized listing of the localized directory".into(),
     };
     if cov.samples.is_empty() {
@@ -939,7 +964,7 @@ pub fn replay(ctx: &Ctx, which: Which, case: &Value) -> Vec<Violation> {
     let ci = case["config_index"].as_u64().unwrap_or(0) as usize;
     let hist: Vec<Op> = serde_json::from_value(case["history"].clone()).unwrap_or_default();
     let base = ctx.scratch("replay");
-    let mut cfgs = configs(tier);
+    let mut cfgs = if which == Which::C14 { configs_c14(tier) } else { configs(tier) };
     if ci >= cfgs.len() {
         return vec![];
     }
